@@ -1039,7 +1039,28 @@ std::string Generator::GeneratorImpl::generateOperatorCode(const std::string &op
                    || isMinusOperator(astRightChild)) {
             if (astRightChild->rightChild() != nullptr) {
                 astRightChildCode = "(" + astRightChildCode + ")";
+            } else if (isTimesOperator(astRightChild->leftChild())
+                       || isDivideOperator(astRightChild->leftChild())) {
+                // a/-(b*c) is not a/-b*c.
+
+                astRightChildCode = "(" + astRightChildCode + ")";
             }
+        }
+    } else if (isRelationalOperator(ast)) {
+        // A relational, logical or piecewise operand of a relational operator
+        // must be parenthesised: a < (b < c) is not (a < b) < c, and the
+        // conditional operator binds less tightly than any relational one.
+
+        if (isRelationalOperator(astLeftChild)
+            || isLogicalOperator(astLeftChild)
+            || isPiecewiseStatement(astLeftChild)) {
+            astLeftChildCode = "(" + astLeftChildCode + ")";
+        }
+
+        if (isRelationalOperator(astRightChild)
+            || isLogicalOperator(astRightChild)
+            || isPiecewiseStatement(astRightChild)) {
+            astRightChildCode = "(" + astRightChildCode + ")";
         }
     } else if (isAndOperator(ast)) {
         // Note: according to the precedence rules above, we only need to
@@ -1357,7 +1378,23 @@ std::string Generator::GeneratorImpl::generateCode(const AnalyserEquationAstPtr 
         break;
     case AnalyserEquationAst::Type::NOT:
         if (mProfile->hasNotOperator()) {
-            code = mProfile->notString() + generateCode(ast->leftChild());
+            auto astLeftChild = ast->leftChild();
+
+            code = generateCode(astLeftChild);
+
+            // The NOT operator binds more tightly than any binary operator.
+
+            if (isRelationalOperator(astLeftChild)
+                || isLogicalOperator(astLeftChild)
+                || isPlusOperator(astLeftChild)
+                || isMinusOperator(astLeftChild)
+                || isTimesOperator(astLeftChild)
+                || isDivideOperator(astLeftChild)
+                || isPiecewiseStatement(astLeftChild)) {
+                code = "(" + code + ")";
+            }
+
+            code = mProfile->notString() + code;
         } else {
             code = generateOneParameterFunctionCode(mProfile->notString(), ast);
         }
@@ -1604,10 +1641,19 @@ std::string Generator::GeneratorImpl::generateCode(const AnalyserEquationAstPtr 
             code = generateCode(ast->leftChild()) + generatePiecewiseElseCode(mProfile->nanString());
         }
     } break;
-    case AnalyserEquationAst::Type::PIECE:
-        code = generatePiecewiseIfCode(generateCode(ast->rightChild()), generateCode(ast->leftChild()));
+    case AnalyserEquationAst::Type::PIECE: {
+        auto valueCode = generateCode(ast->leftChild());
 
-        break;
+        // A piecewise statement used as the value of a piece must be
+        // parenthesised: "a if c1 else b if c2 else c" is not
+        // "(a if c1 else b) if c2 else c".
+
+        if (isPiecewiseStatement(ast->leftChild())) {
+            valueCode = "(" + valueCode + ")";
+        }
+
+        code = generatePiecewiseIfCode(generateCode(ast->rightChild()), valueCode);
+    } break;
     case AnalyserEquationAst::Type::OTHERWISE:
         code = generateCode(ast->leftChild());
 
